@@ -852,7 +852,11 @@ void init_binaries () {
       if (CONFIG_STR(__SIMUL_EFUN_FILE__))
         {
           struct stat st;
-          if (0 == stat (CONFIG_STR(__SIMUL_EFUN_FILE__), &st))
+          const char *sefun = CONFIG_STR(__SIMUL_EFUN_FILE__);
+          /* a mudlib path: "/secure/simul_efun.c" is relative to the mudlib directory (the current directory) */
+          while (*sefun == '/')
+            sefun++;
+          if (0 == stat (sefun, &st))
             {
               config_id = (uint64_t)st.st_mtime;
             }
